@@ -268,6 +268,43 @@ def canon_src(node, mapping):
     return norm_src(_Renamer(mapping).visit(fresh_copy(node)))
 
 
+def single_defs(func):
+    """Locals of `func` bound exactly once, by a plain `name = expr` statement: name -> expr."""
+    cl = canon_locals(func)
+    count = {}
+    defs = {}
+    for x in ast.walk(func):
+        if isinstance(x, ast.Name) and isinstance(x.ctx, (ast.Store, ast.Del)) and x.id in cl:
+            count[x.id] = count.get(x.id, 0) + 1
+        if isinstance(x, ast.AugAssign) and isinstance(x.target, ast.Name):
+            count[x.target.id] = count.get(x.target.id, 0) + 1
+        if isinstance(x, ast.Assign) and len(x.targets) == 1 and isinstance(x.targets[0], ast.Name):
+            defs[x.targets[0].id] = x.value
+    return {n: v for n, v in defs.items() if count.get(n) == 1}
+
+
+def inline_locals(node, func, depth=8):
+    """Copy of `node` in which every single-definition local of `func` is replaced by its definition (recursively):
+    the result mentions only parameters, attributes, globals and multiply-bound locals, so it does not depend on how
+    intermediate values are named."""
+    defs = single_defs(func)
+
+    class T(ast.NodeTransformer):
+        def __init__(self, d):
+            self.d = d
+
+        def visit_Name(self, n):
+            if isinstance(n.ctx, ast.Load) and n.id in defs and self.d > 0:
+                return T(self.d - 1).visit(fresh_copy(defs[n.id]))
+            return n
+
+    return T(depth).visit(fresh_copy(node))
+
+
+def inlined_src(node, func):
+    return norm_src(inline_locals(node, func))
+
+
 def enclosing_function(node):
     names = []
     n = getattr(node, "_parent", None)
